@@ -80,9 +80,14 @@ func (s *Service) HandleHeadEvent(event *apiv1.Event) {
 
 	s.fastTrackJobs(ctx, data.Slot)
 
-	// Remove old subscriptions if present.
+	// Remove old subscriptions if present.  Head events can be missing for an epoch or more,
+	// so remove everything older than the previous epoch rather than a single epoch.
 	s.subscriptionInfosMutex.Lock()
-	delete(s.subscriptionInfos, s.chainTimeService.SlotToEpoch(data.Slot)-2)
+	for subscriptionEpoch := range s.subscriptionInfos {
+		if subscriptionEpoch+1 < epoch {
+			delete(s.subscriptionInfos, subscriptionEpoch)
+		}
+	}
 	s.subscriptionInfosMutex.Unlock()
 
 	// Only verify on current slot.
